@@ -1,36 +1,64 @@
 (* C11 — Saving a model to .ode and loading it back preserves the model. *)
-From GX Require Import Base Expr Topo Ode Load Save Perm Annot.
+From GX Require Import Base Expr Topo Ode Target Sem Codegen Load Save Perm Annot LoadPerm SaveLoad.
 From Coq Require Import Permutation.
 Open Scope string_scope.
 Open Scope list_scope.
 
+(* For the mirror of the writer and the loader: saving any loaded model and loading the result gives a
+   model with the same states, parameters, intermediates and derivatives (values, units, descriptions,
+   component tuples included - they are fields of the atoms), hence the same slot layout and the same
+   generated rhs / monitor_values / Euler functions; in whatever order the writer lists the atoms.  What the
+   theorem does not cover is the text level (sympy's printer and Lark's parser between items and file), which
+   the check compares by execution on every model. *)
+Theorem C11_saving_and_loading_a_model_preserves_it :
+  forall items o S P A,
+    load items = Ok o ->
+    same_set S (o_states o) -> same_set P (o_params o) -> same_set A (assigns o) ->
+    exists o', load (save_items S P A) = Ok o' /\ ode_equiv o o'.
+Proof. exact save_then_load_gen. Qed.
+Print Assumptions C11_saving_and_loading_a_model_preserves_it.
+
+Theorem C11_the_reloaded_model_has_the_same_layout_and_code :
+  forall items o,
+    load items = Ok o ->
+    exists o', load (save_items (o_states o) (o_params o) (assigns o)) = Ok o'
+      /\ ode_equiv o o'
+      /\ (forall ru, sorted_names o ru = sorted_names o' ru)
+      /\ sorted_states o = sorted_states o'
+      /\ param_names o = param_names o'
+      /\ (forall ru order, gen_rhs o ru order = gen_rhs o' ru order)
+      /\ (forall ru order, gen_monitor o ru order = gen_monitor o' ru order)
+      /\ (forall ru name order, gen_euler o ru name order = gen_euler o' ru name order).
+Proof. exact save_then_load_same_code. Qed.
+Print Assumptions C11_the_reloaded_model_has_the_same_layout_and_code.
+
 (* The writer groups the atoms by component tuple, one block per group: the blocks together contain
    exactly the atoms of the model (nothing lost, nothing invented) ... *)
-Theorem C11_partial_blocks_contain_exactly_the_atoms :
+Theorem C11_blocks_contain_exactly_the_atoms :
   forall (A : Type) (key : A -> list string) (l : list A), Permutation (flat_map snd (group_by key l)) l.
 Proof. exact @group_by_perm. Qed.
-Print Assumptions C11_partial_blocks_contain_exactly_the_atoms.
+Print Assumptions C11_blocks_contain_exactly_the_atoms.
 
 (* ... each atom in the block headed by its own components (membership is preserved) ... *)
-Theorem C11_partial_every_atom_is_written_under_its_own_components :
+Theorem C11_every_atom_is_written_under_its_own_components :
   forall (A : Type) (key : A -> list string) (l : list A) k g a,
     In (k, g) (group_by key l) -> In a g -> key a = k.
 Proof. intros A key l k g a. exact (group_by_keyed key l k g a). Qed.
-Print Assumptions C11_partial_every_atom_is_written_under_its_own_components.
+Print Assumptions C11_every_atom_is_written_under_its_own_components.
 
 (* ... and the expression blocks are ordered so that no header-less block follows a headed one
    (it would be read as part of it) *)
-Theorem C11_partial_no_unnamed_block_after_a_named_one :
+Theorem C11_no_unnamed_block_after_a_named_one :
   forall (A : Type) (g : list (list string * list A)) l1 x l2,
     unnamed_first g = l1 ++ x :: l2 -> is_unnamed (fst x) = true ->
     forall y, In y l1 -> is_unnamed (fst y) = true.
 Proof. exact @unnamed_never_after_named. Qed.
-Print Assumptions C11_partial_no_unnamed_block_after_a_named_one.
+Print Assumptions C11_no_unnamed_block_after_a_named_one.
 
-Theorem C11_partial_reordering_the_groups_loses_nothing :
+Theorem C11_reordering_the_groups_loses_nothing :
   forall (A : Type) (g : list (list string * list A)), Permutation (unnamed_first g) g.
 Proof. exact @unnamed_first_perm. Qed.
-Print Assumptions C11_partial_reordering_the_groups_loses_nothing.
+Print Assumptions C11_reordering_the_groups_loses_nothing.
 
 (* a reloaded model that presents the same definitions (in any order, with any annotation) has the
    same statement order and slot layout, hence C01-C07 and C12 transfer to it *)
